@@ -1,6 +1,5 @@
 import Ldlm.Proofs.Rest
 import Ldlm.Proofs.RestConcProgress
-import Ldlm.Props.Pins
 /-!
 C20 — REST sessions live exactly while active and end exactly once.
 
@@ -22,7 +21,7 @@ Sequential semantics: model M4 (`Ldlm.Rest`), tied to the gateway by the `restmo
   cookie 500; afterwards the cookie is invalid.
 
 Races: model M4c (`Ldlm.RestConc`), one step per lock acquisition of `rest.go` (bodies pinned:
-`Pins.pin_ValidateSession`, `pin_RestDestroySession`, `pin_RestCreateSession`, `pin_RestOnTimeout`, `pin_ServeHTTP`, `pin_TimerAdd`, `pin_TimerRemove`, `pin_TimerReset`), any
+`Pins.C20.pin_ValidateSession`, `pin_RestDestroySession`, `pin_RestCreateSession`, `pin_RestOnTimeout`, `pin_ServeHTTP`, `pin_TimerAdd`, `pin_TimerRemove`, `pin_TimerReset`), any
 number of sessions, requests, DELETEs and timer callbacks, any schedule; tied to the code by the
 instrumented interleaving stream `restconc`.
 * `conc_ends_once` — in every reachable state every session has had 0 or 1 connection-end
